@@ -1,3 +1,4 @@
+import Pocket.Lemmas.FromSourceKeys
 import Pocket.Lemmas.FromSourceConsts
 import Pocket.Thm.C05
 /-
@@ -58,5 +59,12 @@ theorem self_findable (ops : List Op) (x : SEv) (hx : x ∈ (run {} ops).db.live
 
 /-- every `PADLEN` of the key builders in `lmdb/mod.rs` is the length the model pads (or cuts) tag values to -/
 theorem index_padding_from_source (v : Bytes) : ∀ p ∈ Src.c_lmdb_PADLEN, (pad182 v).length = p := Pocket.index_padding_from_source v
+
+/-- the byte keys the theorems above are about are the keys `key_*_index` build today: the statements of the six builders in
+`lmdb/mod.rs`, translated on every run, produce exactly the model's keys -/
+theorem keys_from_source (author value id : Bytes) (kind letter t : Nat) :
+    Src.keyCi t id = keyCi t id ∧ Src.keyAc author t id = keyAc author t id ∧ Src.keyAkc author kind t id = keyAkc author kind t id ∧
+    Src.keyTc letter value t id = keyTc letter value t id ∧ Src.keyAtc author letter value t id = keyAtc author letter value t id ∧
+    Src.keyKtc kind letter value t id = keyKtc kind letter value t id := Pocket.keys_from_source author value id kind letter t
 
 end Pocket.C17
